@@ -2,10 +2,14 @@
 // (engine_io.c, engine_util_errmem.c, user_resource.cc, and mj_compile of user_model.cc) through the public
 // mju_user_malloc / mju_user_free / mju_user_error / mju_user_warning callbacks.
 //
-// usage: c21_allocfail --model FILE        (model description in the format of harness/mjbuild.h)
+// usage: c21_allocfail --model FILE [--fill BYTE]   (model description in the format of harness/mjbuild.h)
+//   --fill BYTE: every block handed out by the allocator hook is filled with BYTE first (a debug-fill allocator:
+//   mju_malloc promises nothing about the contents, so the outcome of a run must not depend on it; with a
+//   non-zero BYTE a pointer / counter field read before it was written is a wild pointer / huge count, not 0)
 // stdin ops, one output line each:
 //   sizes                                   sizeof(mjModel) nbuffer sizeof(mjData) nbuffer narena mj_sizeModel sizeof(mjVFS)
 //   run SCEN REGIME VARIANT FAILSET | s..   SCEN: makedata copydata copymodel loadmodel savemodel compile
+//                                                 recompile copycompile makescene (these three: no sizes, oracle only)
 //                                           REGIME: longjmp | returning   (what the installed error handler does)
 //                                           VARIANT: asis | trymalloc      (only names the model variant; ignored here)
 //                                           FAILSET: 0-based indices of the mju_malloc calls that fail ("-" = none)
@@ -15,7 +19,17 @@
 // after free faults like a NULL dereference does.
 // output:  trace=<events> out=<returned|jumped|FAULT> live=<ids still allocated|-|?> [err=<0|1> for compile]
 //   events: a<size> ok allocation (its id = 1-based index of the call), x<size> failed, f<id> free, E error
-//   handler, W warning handler, DF<id> free of a freed / unknown block
+//   handler, W warning handler, DF<id> free of a freed / unknown block, S end of the set-up part of a scenario
+//   (FAILSET indices count the mju_malloc calls after S; block ids count every call)
+// scenarios beyond the engine ones:
+//   compile      fresh spec built, mj_compile, mj_deleteModel, mj_deleteSpec
+//   recompile    set-up: spec, mj_compile, mj_makeData, a few steps; then mj_recompile(spec, NULL, m, d) in place.
+//                rc 0: the caller deletes d and m; rc -1: mj_recompile has deleted them; error handler reached
+//                (mjCModel::MakeData runs outside the compiler's own handler): the caller, who still owns m and d,
+//                deletes them
+//   copycompile  spec, mj_copySpec, compile the copy, compile the original twice (second time over a compiled
+//                spec: Clear() path), delete everything
+//   makescene    mjv_defaultScene, mjv_makeScene(m, scn, 64), mjv_freeScene (also after an error)
 #include <pthread.h>
 #include <setjmp.h>
 #include <stdint.h>
@@ -36,6 +50,7 @@ static void wr(int fd, const char* s) { size_t n = strlen(s); while (n) { ssize_
 typedef struct { void* p; size_t map; void* base; int freed; int id; } Blk;
 static Blk g_blk[MAXBLK];
 static int g_nblk = 0, g_calls = 0, g_fd = -1, g_df = 0;
+static int g_allcalls = 0, g_armed = 1, g_fill = -1;
 static unsigned char g_fail[MAXBLK];
 static pthread_mutex_t g_mu = PTHREAD_MUTEX_INITIALIZER;
 static int g_nev = 0;
@@ -47,9 +62,10 @@ static void ev(const char* s) {
 
 static void* hook_malloc(size_t size) {
   pthread_mutex_lock(&g_mu);
-  int idx = g_calls++;
+  int idx = g_armed ? g_calls++ : -1;
+  int id = ++g_allcalls;
   char b[64];
-  if (size == 0 || (idx < MAXBLK && g_fail[idx]) || g_nblk >= MAXBLK) {
+  if (size == 0 || (idx >= 0 && idx < MAXBLK && g_fail[idx]) || g_nblk >= MAXBLK) {
     snprintf(b, sizeof b, "x%zu", size); ev(b);
     pthread_mutex_unlock(&g_mu);
     return NULL;
@@ -59,7 +75,8 @@ static void* hook_malloc(size_t size) {
   if (base == MAP_FAILED) { snprintf(b, sizeof b, "x%zu", size); ev(b); pthread_mutex_unlock(&g_mu); return NULL; }
   mprotect(base, pg, PROT_NONE);
   mprotect(base + pg + total, pg, PROT_NONE);
-  Blk k = {base + pg + total - body, total, base, 0, idx + 1};
+  if (g_fill >= 0) memset(base + pg, g_fill, total);
+  Blk k = {base + pg + total - body, total, base, 0, id};
   g_blk[g_nblk++] = k;
   snprintf(b, sizeof b, "a%zu", size); ev(b);
   pthread_mutex_unlock(&g_mu);
@@ -104,7 +121,7 @@ typedef struct { RunArg* ops; int n; } Batch;
 
 static void reset_hooks_state(const RunArg* r) {
   for (int i = 0; i < g_nblk; i++) munmap(g_blk[i].base, g_blk[i].map + 2 * 4096);
-  g_nblk = 0; g_calls = 0; g_df = 0; g_nev = 0;
+  g_nblk = 0; g_calls = 0; g_df = 0; g_nev = 0; g_allcalls = 0; g_armed = 1;
   memset(g_fail, 0, sizeof g_fail);
   for (int i = 0; i < r->nfail; i++) g_fail[r->fail[i]] = 1;
 }
@@ -123,8 +140,64 @@ static void run_one(const RunArg* r, int fd) {
   mju_user_warning = on_warning;
   const char* volatile out = "returned";
   volatile int err = 0;
+  int has_err = is_compile || !strcmp(r->scen, "recompile") || !strcmp(r->scen, "copycompile");
+  static mjSpec* s_sp; static mjModel* s_m; static mjData* s_d; static mjvScene s_scn; static int s_stage;
+  s_sp = NULL; s_m = NULL; s_d = NULL; s_stage = 0;
   if (setjmp(g_jb)) {
     out = "jumped";
+    if (!strcmp(r->scen, "recompile") && s_stage == 1) {
+      // the error handler was reached from mj_recompile (outside mjCModel::Compile): the caller still owns m and d
+      mj_deleteData(s_d);
+      mj_deleteModel(s_m);
+      mj_deleteSpec(s_sp);
+      err = 4;
+    } else if (!strcmp(r->scen, "makescene")) {
+      mjv_freeScene(&s_scn);
+    }
+  } else if (!strcmp(r->scen, "recompile")) {
+    char e2[512];
+    g_armed = 0;
+    FILE* f = fopen(g_modelfile, "r");
+    s_sp = f ? mjb_build(f, e2, sizeof e2) : NULL;
+    if (f) fclose(f);
+    s_m = s_sp ? mj_compile(s_sp, NULL) : NULL;
+    s_d = s_m ? mj_makeData(s_m) : NULL;
+    if (!s_d) err = 3;
+    else {
+      for (int i = 0; i < 3; i++) mj_step(s_m, s_d);
+      pthread_mutex_lock(&g_mu); ev("S"); pthread_mutex_unlock(&g_mu);
+      g_armed = 1;
+      s_stage = 1;
+      int rc = mj_recompile(s_sp, NULL, s_m, s_d);
+      s_stage = 2;
+      if (rc == 0) { mj_deleteData(s_d); mj_deleteModel(s_m); err = 0; }
+      else { err = mjs_getError(s_sp)[0] ? 1 : 2; }
+      mj_deleteSpec(s_sp);
+    }
+  } else if (!strcmp(r->scen, "copycompile")) {
+    char e2[512];
+    FILE* f = fopen(g_modelfile, "r");
+    mjSpec* sp = f ? mjb_build(f, e2, sizeof e2) : NULL;
+    if (f) fclose(f);
+    if (!sp) err = 3;
+    else {
+      mjSpec* sp2 = mj_copySpec(sp);
+      mjModel* ma = sp2 ? mj_compile(sp2, NULL) : NULL;
+      if (sp2 && !ma) err = mjs_getError(sp2)[0] ? 1 : 2;
+      mjModel* mb = mj_compile(sp, NULL);
+      if (!mb && err != 2) err = mjs_getError(sp)[0] ? 1 : 2;
+      mjModel* mc = mj_compile(sp, NULL);
+      if (!mc && err != 2) err = mjs_getError(sp)[0] ? 1 : 2;
+      if (!sp2) err = 5;
+      mj_deleteModel(mc); mj_deleteModel(mb); mj_deleteModel(ma);
+      if (sp2) mj_deleteSpec(sp2);
+      mj_deleteSpec(sp);
+    }
+  } else if (!strcmp(r->scen, "makescene")) {
+    if (g_fill >= 0) memset(&s_scn, g_fill, sizeof s_scn);
+    mjv_defaultScene(&s_scn);
+    mjv_makeScene(g_m, &s_scn, 64);
+    mjv_freeScene(&s_scn);
   } else if (!strcmp(r->scen, "makedata")) {
     mjData* d = mj_makeData(g_m);
     if (d) mj_deleteData(d);
@@ -163,7 +236,7 @@ static void run_one(const RunArg* r, int fd) {
   int any = 0;
   for (int i = 0; i < g_nblk; i++) if (!g_blk[i].freed) { snprintf(b, sizeof b, "%s%d", any ? "," : "", g_blk[i].id); wr(fd, b); any = 1; }
   if (!any) wr(fd, "-");
-  if (is_compile) { snprintf(b, sizeof b, " err=%d", (int)err); wr(fd, b); }
+  if (has_err) { snprintf(b, sizeof b, " err=%d", (int)err); wr(fd, b); }
   if (g_df) wr(fd, " doublefree=1");
   wr(fd, "\001");
 }
@@ -206,7 +279,14 @@ int main(int argc, char** argv) {
   setvbuf(stdout, NULL, _IOLBF, 0);
   mju_user_error = quiet_error;
   mju_user_warning = quiet_warning;
-  if (argc != 3 || strcmp(argv[1], "--model")) { fprintf(stderr, "usage: c21_allocfail --model FILE\n"); return 2; }
+  if ((argc != 3 && argc != 5) || strcmp(argv[1], "--model") || (argc == 5 && strcmp(argv[3], "--fill"))) {
+    fprintf(stderr, "usage: c21_allocfail --model FILE [--fill BYTE]\n"); return 2;
+  }
+  if (argc == 5) {
+    char* e; long v = strtol(argv[4], &e, 0);
+    if (*e || e == argv[4] || v < 0 || v > 255) { fprintf(stderr, "bad --fill\n"); return 2; }
+    g_fill = (int)v;
+  }
   {
     FILE* f = fopen(argv[2], "r");
     char err[512];
@@ -246,9 +326,10 @@ int main(int argc, char** argv) {
     if (n == 5 && !strcmp(tok[0], "run")) {
       const char* scen = tok[1];
       int lj = !strcmp(tok[2], "longjmp");
-      static const char* SC[] = {"makedata", "copydata", "copymodel", "loadmodel", "savemodel", "compile"};
+      static const char* SC[] = {"makedata", "copydata", "copymodel", "loadmodel", "savemodel", "compile", "recompile",
+                                 "copycompile", "makescene"};
       int known = 0;
-      for (int i = 0; i < 6; i++) known |= !strcmp(scen, SC[i]);
+      for (int i = 0; i < 9; i++) known |= !strcmp(scen, SC[i]);
       if ((!lj && strcmp(tok[2], "returning")) || (strcmp(tok[3], "asis") && strcmp(tok[3], "trymalloc")) || !known) { op->text = strdup("bad-op"); continue; }
       RunArg a; memset(&a, 0, sizeof a);
       snprintf(a.scen, sizeof a.scen, "%s", scen);
@@ -266,14 +347,17 @@ int main(int argc, char** argv) {
       if (bad) { op->text = strdup("bad-op"); continue; }
       // the sizes announced to the model must be the real ones
       if (szstr) {
-        size_t want[3]; int nw = 0;
+        size_t want[5]; int nw = 0;
         if (!strcmp(scen, "makedata") || !strcmp(scen, "copydata")) { want[0] = real[2]; want[1] = real[3]; want[2] = real[4]; nw = 3; }
         else if (!strcmp(scen, "copymodel") || !strcmp(scen, "loadmodel")) { want[0] = real[0]; want[1] = real[1]; nw = 2; }
         else if (!strcmp(scen, "savemodel")) { want[0] = real[5]; want[1] = real[6]; nw = 2; }
+        else if (!strcmp(scen, "compile")) { for (int q = 0; q < 5; q++) want[q] = real[q]; nw = 5; }
         int i = 0, ok = 1; char* s3; char* u = strtok_r(szstr, " \t\r", &s3);
         while (u) { if (i >= nw || strtoull(u, NULL, 10) != want[i]) ok = 0; i++; u = strtok_r(NULL, " \t\r", &s3); }
         if (!ok || i != nw) { op->text = strdup("sizes-mismatch"); continue; }
-      } else if (strcmp(scen, "compile")) { op->text = strdup("bad-op"); continue; }
+      } else if (strcmp(scen, "compile") && strcmp(scen, "recompile") && strcmp(scen, "copycompile") && strcmp(scen, "makescene")) {
+        op->text = strdup("bad-op"); continue;
+      }
       op->kind = K_RUN; op->arg = a;
       continue;
     }
